@@ -2,6 +2,7 @@
 from run_check import Case
 from vlib import line, untok
 from props.wirecases import gen_wire_cases, judge_wire
+from props.c18 import gen_dl_cases, judge_dl
 
 TRUSTED_BASE = [
     "Coq 8.16.1 kernel (coqc; coqchk in the thorough tier)",
@@ -170,6 +171,9 @@ def gen_cases(rng, ctx):
             add(b + b"zz", cuts_for(rng, len(b), style), "near-miss:" + style, None, modelled=False)
     # the head writers through the door: encode_response (what the client is answered with) and encode_request
     cases += gen_wire_cases(rng, 120 if thorough else 40)
+    # the download direction ("relays payload in both directions"): the response side of the codec over a scripted transport
+    # with partial writes and listen futures dropped while a write is pending (engine c18_dl, Model/Http1Download.v; seed C08-o)
+    cases += gen_dl_cases(rng, 300 if thorough else 40)
     return cases
 
 
@@ -189,6 +193,8 @@ def parse_headers(tok):
 def judge(case, impl, model, spec, ctx):
     if case.meta and case.meta.get("wire"):
         return judge_wire(case, impl, model, spec)
+    if case.meta and case.meta.get("dl"):
+        return judge_dl(case, impl, model)
     if impl == "999":
         return [("violation", "the HTTP/1.1 codec panicked")]
     t = impl.split()
